@@ -332,6 +332,15 @@ def r4_order(repo):
                   "every use of the diagnostics map `%s` must be on a path where compiler.crash_msg was tested false "
                   "(the map is None on a crash); %d uses, %d unguarded at lines %s"
                   % (fname, len(uses), len(bad), [u.lineno for u in bad])))
+    # the verdict comes from the compiler's output alone: the analysis runs on every call (not only for a non-zero exit
+    # status - wrapper scripts lose it, and crashes / rejected files are recognised by their text) and the map has no other
+    # definition
+    gs = [("" if p else "not ") + src(t) for t, p in flat_guards(an[0])]
+    others = [n for n in iter_own_nodes(co.node) if isinstance(n, ast.Assign) and n is not an[0] and
+              any(isinstance(x, ast.Name) and x.id == fname and isinstance(x.ctx, ast.Store) for x in ast.walk(n.targets[0]))]
+    obs.append(Ob("C14-R4", "check_oracle:output-analysed-on-every-call", _w(co, an[0]), not gs and not others,
+                  "`%s` runs under %s and `%s` has %d other definition(s); the compiler's output must be analysed "
+                  "unconditionally and be the only source of the diagnostics map" % (src(an[0])[:60], gs, fname, len(others))))
     return obs
 
 
